@@ -267,7 +267,7 @@ def check_getcallouts_progress(rep, prog):
               "read (constant or missing increment): callouts are skipped or the walk overruns", node=L.node)
 
 
-def check_loop(rep, prog):
+def check_loop(rep, prog, pfx="C01"):
     """parsePEL / parsePELSummary: PH, UH once each before the loop; per iteration exactly one parseHeader,
     one sectionFun fed with the header fields in order and the PH creator id, one append"""
     for fn, with_append in (("parsePEL", True), ("parsePELSummary", False)):
@@ -280,16 +280,16 @@ def check_loop(rep, prog):
         calls = [e for e in I.events if e.kind == "call" and e.func == PT + fn]
         seq = [e.data[0].split(".")[-1] for e in calls]
         rep.check(seq[:2] == ["generatePH", "generateUH"] and seq.count("generatePH") == 1 and seq.count("generateUH") == 1,
-                  "C01.R2.once", "%s decodes PH then UH exactly once before the optional sections" % fn, where,
+                  pfx + ".R2.once", "%s decodes PH then UH exactly once before the optional sections" % fn, where,
                   fn, "PH/UH are not decoded once each, in that order, first: %s" % seq)
         loops = [L for L in I.loops.values() if L.func == PT + fn]
         if len(loops) != 1:
-            rep.fail("C01.R2.once", where, fn, "expected one loop over the optional sections, found %d" % len(loops))
+            rep.fail(pfx + ".R2.once", where, fn, "expected one loop over the optional sections, found %d" % len(loops))
             continue
         L = loops[0]
         cnt = IntF(27, 1)
         trip_ok, env, _ = equivalent(subst_guarded(L.trip), sub(cnt, Const(2)))
-        rep.check(trip_ok, "C01.R2.once", "%s iterates sectionCount-2 times (count byte @27 of the PH)" % fn, where,
+        rep.check(trip_ok, pfx + ".R2.once", "%s iterates sectionCount-2 times (count byte @27 of the PH)" % fn, where,
                   L.node, "optional-section loop runs %r times, the private header declares byte@27 - 2 sections" % (L.trip,),
                   node=L.node)
         body = I.events[L.events[0]:L.events[1]]
@@ -298,7 +298,7 @@ def check_loop(rep, prog):
         g0 = L.body_guard
         one = len(hdr) == 1 and len(sf) == 1 and hdr[0].seq < sf[0].seq and hdr[0].guard == g0 and \
             strip_assume(sf[0].guard, g0)
-        rep.check(one, "C01.R2.once", "%s: each iteration reads one header then decodes one section, unconditionally" % fn,
+        rep.check(one, pfx + ".R2.once", "%s: each iteration reads one header then decodes one section, unconditionally" % fn,
                   where, L.node, "per iteration %d header read(s) and %d section decode(s) (or conditional / out of order)"
                   % (len(hdr), len(sf)), node=L.node)
         if not sf:
@@ -314,10 +314,10 @@ def check_loop(rep, prog):
                 want = [IntF(base, 2), IntF(add(base, Const(2)), 2), IntF(add(base, Const(4)), 1),
                         IntF(add(base, Const(5)), 1), IntF(add(base, Const(6)), 2)]
                 good = list(a[2:7]) == want
-        rep.check(good, "C01.R1.header", "%s passes (id, length, version, subtype, component) to the section decoder in order" % fn,
+        rep.check(good, pfx + ".R1.header", "%s passes (id, length, version, subtype, component) to the section decoder in order" % fn,
                   where, "sectionFun(...)", "section header fields are permuted or replaced on the way to the decoder: %r" % (a[2:7],))
         cre_ok = len(a) >= 9 and a[7] == Op("m:decode", F(24, 1)) or (len(a) >= 9 and pelx.fields_of(a[7]) == [(Const(24), Const(25))])
-        rep.check(cre_ok, "C01.R1.header", "%s passes the PH creator id (byte @24) to the section decoder" % fn, where,
+        rep.check(cre_ok, pfx + ".R1.header", "%s passes the PH creator id (byte @24) to the section decoder" % fn, where,
                   "sectionFun(...)", "creator id handed to the section decoders is %r, not the private header's creator byte" % (
                       a[7] if len(a) > 7 else None,))
         # stride: the header read advances 8 per iteration (sectionFun is opaque here)
@@ -325,12 +325,12 @@ def check_loop(rep, prog):
         if with_append:
             apps = [e for e in body if e.kind == "append" and e.func == PT + fn]
             fresh = len(apps) == 1 and apps[0].seq > sf[0].seq and reaches(I, apps[0].data[1], a[1])
-            rep.check(fresh and not L.breaks, "C01.R2.once", "parsePEL appends each section's own fresh dictionary once, no early exit",
+            rep.check(fresh and not L.breaks, pfx + ".R2.once", "parsePEL appends each section's own fresh dictionary once, no early exit",
                       where, L.node, "decoded sections are not appended exactly once each in log order (appends=%d, breaks=%d)" % (
                           len(apps), len(L.breaks)), node=L.node)
             # the section list reaches buildOutput
             bo = [e for e in I.events if e.kind == "call" and e.data[0] == PT + "buildOutput"]
-            rep.check(len(bo) == 1 and apps and bo[0].data[1][0] == apps[0].data[0], "C01.R2.once",
+            rep.check(len(bo) == 1 and apps and bo[0].data[1][0] == apps[0].data[0], pfx + ".R2.once",
                       "parsePEL hands the list of decoded sections to buildOutput once", where, "buildOutput(...)",
                       "buildOutput is not called exactly once with the list the sections were appended to")
 
